@@ -6,6 +6,7 @@ Theorems about `HedVerif.Bids` (Model/Bids.lean), for all trees / groups, no bou
 data files, refuted by `mergeImplOld_counterexample`.
 -/
 import HedVerif.Model.Bids
+import HedVerif.Model.BidsV
 
 namespace HedVerif.Bids
 
@@ -278,18 +279,86 @@ theorem applies_eq_specApplies (s o : PFile α) (hs : s.path ≠ []) (hd : s.dir
         simp only [specApplies, Bool.and_eq_true, beq_iff_eq] at hsp
         exact ⟨hsp.1.1, ⟨hd', hnot⟩, (entSubset_iff _ _).mp hsp.2⟩
 
-/-- the hypotheses of `merge_spec`: sidecars are files with a name, none of them is a directory on the
-object's path, and BIDS' "at most one applicable sidecar per directory" -/
+/-- file-system facts about the sidecars relative to an object: every sidecar has a file name and no
+sidecar *file* is a directory on the object's path.  They hold for every object of a group loaded from
+a file-system listing (`load_files`). -/
+structure Files (g : Group α) (o : PFile α) : Prop where
+  named : ∀ s ∈ g.sidecars, s.path ≠ []
+  files : ∀ s ∈ g.sidecars, s.path <+: o.path → s = o
+
+/-- the hypotheses of `merge_spec`: `Files` and BIDS' "at most one applicable sidecar per directory" -/
 structure WellFormed (g : Group α) (o : PFile α) : Prop where
   named : ∀ s ∈ g.sidecars, s.path ≠ []
   files : ∀ s ∈ g.sidecars, s.path <+: o.path → s = o
   unique : ∀ d ∈ inits o.dir, (g.sidecars.filter (fun s => s.dir == d && specApplies s o)).length ≤ 1
 
-theorem chain_eq_specChain (g : Group α) (o : PFile α) (h : WellFormed g o) :
-    chain g o = specChain g o := by
-  unfold chain specChain
+theorem WellFormed.toFiles {g : Group α} {o : PFile α} (h : WellFormed g o) : Files g o := ⟨h.named, h.files⟩
+
+theorem mem_dirSidecars {g : Group α} {d : Path} {s : PFile α} (h : s ∈ dirSidecars g d) :
+    s ∈ g.sidecars ∧ s.dir = d := by
+  simp only [dirSidecars, List.mem_filter, beq_iff_eq] at h; exact h
+
+/-- in a directory on the object's path the code's per-directory choice is the first listed sidecar
+that is applicable in the property's sense -/
+theorem chainAt_eq (g : Group α) (o : PFile α) (h : Files g o) (d : Path) (hd : d ∈ inits o.dir) :
+    chainAt g o d = (dirSidecars g d).find? (fun s => specApplies s o) := by
+  unfold chainAt
+  apply find?_congr'
+  intro s hs
+  obtain ⟨hs1, hs2⟩ := mem_dirSidecars hs
+  exact applies_eq_specApplies s o (h.named s hs1) (hs2 ▸ mem_inits_prefix _ _ hd) (h.files s hs1)
+
+theorem filterMap_congr' {β γ : Type} (l : List β) (f g : β → Option γ) (h : ∀ a ∈ l, f a = g a) :
+    l.filterMap f = l.filterMap g := by
+  induction l with
+  | nil => rfl
+  | cons a r ih =>
+    rw [filterMap_cons_toList, filterMap_cons_toList, h a (List.mem_cons_self ..),
+      ih (fun b hb => h b (List.mem_cons_of_mem _ hb))]
+
+/-- **chain for all trees.**  Without any uniqueness assumption the code's chain is the chosen chain:
+per directory from the root down, the first listed applicable sidecar. -/
+theorem chain_eq_chosenChain (g : Group α) (o : PFile α) (h : Files g o) :
+    chain g o = chosenChain g o := by
+  unfold chain chosenChain
+  exact filterMap_congr' _ _ _ (fun d hd => chainAt_eq g o h d hd)
+
+/-- **merge_chosen** (`merge_spec` for all trees): the code's merged sidecar is the top-down merge of
+the chosen chain, whatever the tree looks like. -/
+theorem merge_chosen (g : Group α) (o : PFile α) (h : Files g o) :
+    mergeImpl g o = mergeCols ((chosenChain g o).map (·.cols)) := by
+  simp [mergeImpl, chain_eq_chosenChain g o h]
+
+/-- **first_listed_wins.**  If the sidecars of a directory on the object's path are listed as
+`pre ++ s :: post`, `s` is applicable and nothing in `pre` is, then `s` is the code's choice for that
+directory, it is in the chain, and it is the only member of the chain from that directory — later
+listed applicable sidecars (`post`) are silently ignored. -/
+theorem first_listed_wins (g : Group α) (o : PFile α) (h : Files g o) (d : Path) (hd : d ∈ inits o.dir)
+    (pre post : List (PFile α)) (s : PFile α) (hl : dirSidecars g d = pre ++ s :: post)
+    (hs : specApplies s o = true) (hpre : ∀ p ∈ pre, specApplies p o = false) :
+    chainAt g o d = some s ∧ s ∈ chain g o ∧ ∀ t ∈ chain g o, t.dir = d → t = s := by
+  have hc : chainAt g o d = some s := by
+    rw [chainAt_eq g o h d hd, hl, List.find?_append]
+    have : pre.find? (fun s => specApplies s o) = none := by
+      rw [List.find?_eq_none]; intro p hp; simp [hpre p hp]
+    simp [this, hs]
+  refine ⟨hc, ?_, ?_⟩
+  · unfold chain; exact List.mem_filterMap.mpr ⟨d, hd, hc⟩
+  · intro t ht htd
+    unfold chain at ht
+    obtain ⟨d', _, hd'⟩ := List.mem_filterMap.mp ht
+    have hm : t ∈ dirSidecars g d' := by unfold chainAt at hd'; exact List.mem_of_find?_eq_some hd'
+    have : d' = d := by rw [← (mem_dirSidecars hm).2, htd]
+    subst this
+    rw [hc] at hd'; exact (Option.some.inj hd').symm
+
+/-- with at most one applicable sidecar per directory the chosen chain is the property's chain -/
+theorem chosenChain_eq_specChain (g : Group α) (o : PFile α)
+    (hu : ∀ d ∈ inits o.dir, (g.sidecars.filter (fun s => s.dir == d && specApplies s o)).length ≤ 1) :
+    chosenChain g o = specChain g o := by
+  unfold chosenChain specChain
   have key : ∀ ds : List Path, (∀ d ∈ ds, d ∈ inits o.dir) →
-      ds.filterMap (fun d => (dirSidecars g d).find? (fun s => applies s o)) =
+      ds.filterMap (fun d => (dirSidecars g d).find? (fun s => specApplies s o)) =
       ds.flatMap (fun d => g.sidecars.filter (fun s => s.dir == d && specApplies s o)) := by
     intro ds
     induction ds with
@@ -298,20 +367,18 @@ theorem chain_eq_specChain (g : Group α) (o : PFile α) (h : WellFormed g o) :
       intro hds
       rw [filterMap_cons_toList, List.flatMap_cons, ih (fun d' hd' => hds d' (List.mem_cons_of_mem _ hd'))]
       congr 1
-      have hdm : d ∈ inits o.dir := hds d (List.mem_cons_self ..)
-      have hd : d <+: o.dir := mem_inits_prefix _ _ hdm
-      rw [← find?_toList_of_filter_le_one _ _ (h.unique d hdm)]
+      rw [← find?_toList_of_filter_le_one _ _ (hu d (hds d (List.mem_cons_self ..)))]
       congr 1
       unfold dirSidecars
       rw [List.find?_filter]
       apply find?_congr'
-      intro s hs
-      by_cases hsd : s.dir = d
-      · have : applies s o = specApplies s o :=
-          applies_eq_specApplies s o (h.named s hs) (hsd ▸ hd) (h.files s hs)
-        simp [hsd, this]
-      · simp [hsd]
+      intro s _
+      cases s.dir == d <;> cases specApplies s o <;> rfl
   exact key _ (fun d hd => hd)
+
+theorem chain_eq_specChain (g : Group α) (o : PFile α) (h : WellFormed g o) :
+    chain g o = specChain g o := by
+  rw [chain_eq_chosenChain g o h.toFiles, chosenChain_eq_specChain g o h.unique]
 
 /-- **merge_spec.**  For every tree in which each directory holds at most one applicable sidecar, the
 (fixed) code gives every object — data file or sidecar — exactly the property's merge. -/
@@ -439,7 +506,7 @@ theorem load_error_iff (t : Tree α) (excl : List Str) (suffix : Str) :
         (checkName (f.1.getLastD []) suffix jsonExt = true ∨ checkName (f.1.getLastD []) suffix tsvExt = true) ∧
         ∃ e, parseName (f.1.getLastD []) = .error e := by
   have hj := parseAll_error_iff (discover t excl suffix jsonExt)
-  have ht := parseAll_error_iff ((discover t excl suffix tsvExt).map fun f => (f.1, ([] : Columns α)))
+  have ht := parseAll_error_iff ((discover t excl suffix tsvExt).map fun f => (f.1, (some [] : Option (Columns α))))
   unfold load
   cases h1 : parseAll (discover t excl suffix jsonExt) with
   | error e =>
@@ -449,14 +516,14 @@ theorem load_error_iff (t : Tree α) (excl : List Str) (suffix : Str) :
   | ok ss =>
     have hnj : ¬ ∃ f ∈ discover t excl suffix jsonExt, ∃ e, parseName (f.1.getLastD []) = .error e := by
       intro h; obtain ⟨e, he⟩ := hj.mpr h; rw [h1] at he; cases he
-    cases h2 : parseAll ((discover t excl suffix tsvExt).map fun f => (f.1, ([] : Columns α))) with
+    cases h2 : parseAll ((discover t excl suffix tsvExt).map fun f => (f.1, (some [] : Option (Columns α)))) with
     | error e =>
       obtain ⟨f, hf, e', he'⟩ := ht.mp ⟨e, h2⟩
       obtain ⟨f0, hf0, rfl⟩ := List.mem_map.mp hf
       simp only [discover, List.mem_filter, Bool.and_eq_true] at hf0
       exact ⟨fun _ => ⟨f0, hf0.1, hf0.2.1, Or.inr hf0.2.2, e', he'⟩, fun _ => ⟨e, rfl⟩⟩
     | ok ds =>
-      have hnt : ¬ ∃ f ∈ (discover t excl suffix tsvExt).map (fun f => (f.1, ([] : Columns α))),
+      have hnt : ¬ ∃ f ∈ (discover t excl suffix tsvExt).map (fun f => (f.1, (some [] : Option (Columns α)))),
           ∃ e, parseName (f.1.getLastD []) = .error e := by
         intro h; obtain ⟨e, he⟩ := ht.mpr h; rw [h2] at he; cases he
       constructor
@@ -467,7 +534,7 @@ theorem load_error_iff (t : Tree α) (excl : List Str) (suffix : Str) :
           exact absurd ⟨f, hm, e, he⟩ hnj
         · have hm : f ∈ discover t excl suffix tsvExt := by
             unfold discover; exact List.mem_filter.mpr ⟨hf, by rw [hv, hc]; rfl⟩
-          exact absurd ⟨(f.1, []), List.mem_map.mpr ⟨f, hm, rfl⟩, e, he⟩ hnt
+          exact absurd ⟨(f.1, some []), List.mem_map.mpr ⟨f, hm, rfl⟩, e, he⟩ hnt
 
 /-- **exit_iff.** -/
 theorem exit_iff (l : List ι) : exitCode l = 1 ↔ l ≠ [] := by
@@ -493,6 +560,336 @@ theorem validate_composition (vS : PFile α → Columns α → List ι)
     simp only [hasSidecar, chain_eq_specChain g d (hD d hd)]
     cases (specChain g d).isEmpty <;> rfl
 
+/-! ## every file-system listing is covered (`load_files`) -/
+
+/-- a listing of the files of a file system: every entry has a name, and no entry's path is a prefix
+of another entry's path (a file is not a directory; paths are distinct) -/
+def IsListing (t : Tree α) : Prop :=
+  (∀ f ∈ t, f.1 ≠ []) ∧ (∀ f ∈ t, ∀ f' ∈ t, f.1 <+: f'.1 → f = f')
+
+theorem parseAll_mem (t : Tree α) (fs : List (PFile α)) (h : parseAll t = .ok fs) :
+    ∀ s ∈ fs, ∃ f ∈ t, s.path = f.1 ∧ s.cols = f.2.getD [] ∧ s.obj = f.2.isSome ∧
+      parseName (f.1.getLastD []) = .ok (s.suffix, s.ents) := by
+  induction t generalizing fs with
+  | nil =>
+    simp only [parseAll] at h; cases h; intro s hs; cases hs
+  | cons f r ih =>
+    obtain ⟨p, c⟩ := f
+    cases hp : parseName (p.getLastD []) with
+    | error e => simp only [parseAll, hp] at h; cases h
+    | ok v =>
+      obtain ⟨sfx, es⟩ := v
+      cases hr : parseAll r with
+      | error e => simp only [parseAll, hp, hr] at h; cases h
+      | ok fs' =>
+        simp only [parseAll, hp, hr] at h
+        cases h
+        intro s hs
+        rcases List.mem_cons.mp hs with rfl | hs
+        · exact ⟨(p, c), List.mem_cons_self .., rfl, rfl, rfl, hp⟩
+        · obtain ⟨f, hf, h'⟩ := ih fs' hr s hs
+          exact ⟨f, List.mem_cons_of_mem _ hf, h'⟩
+
+theorem not_json_and_tsv (x : Str) (h1 : endsWith x jsonExt = true) (h2 : endsWith x tsvExt = true) : False := by
+  unfold endsWith at h1 h2
+  generalize x.reverse = r at h1 h2
+  cases r with
+  | nil => simp [jsonExt, List.isPrefixOf] at h1
+  | cons c cs =>
+    simp only [jsonExt, tsvExt, List.reverse_cons, List.reverse_nil, List.nil_append, List.cons_append,
+      List.isPrefixOf, Bool.and_eq_true, beq_iff_eq] at h1 h2
+    have := h1.1.trans h2.1.symm
+    exact absurd this (by decide)
+
+theorem checkName_endsWith (n sfx ext : Str) (h : checkName n sfx ext = true) :
+    endsWith (lower (lower n)) (lower ext) = true := by
+  by_cases he : endsWith (lower (lower n)) (lower ext) = true
+  · exact he
+  · simp [checkName, checkFilename, getAllowed, he] at h
+
+theorem lower_jsonExt : lower jsonExt = jsonExt := by decide
+theorem lower_tsvExt : lower tsvExt = tsvExt := by decide
+
+/-- **load_files.**  For a group loaded from any file-system listing, `Files` holds for every object
+(sidecar or data file), so `merge_chosen`, `first_listed_wins`, `chain_eq_chosenChain` apply to every
+tree, well-formed or not. -/
+theorem load_files (t : Tree α) (excl : List Str) (suffix : Str) (g : Group α) (ht : IsListing t)
+    (hl : load t excl suffix = .ok g) : ∀ o ∈ g.sidecars ++ g.datafiles, Files g o := by
+  unfold load at hl
+  cases h1 : parseAll (discover t excl suffix jsonExt) with
+  | error e => rw [h1] at hl; cases hl
+  | ok ss =>
+    cases h2 : parseAll ((discover t excl suffix tsvExt).map fun f => (f.1, (some [] : Option (Columns α)))) with
+    | error e => rw [h1, h2] at hl; cases hl
+    | ok ds =>
+      rw [h1, h2] at hl
+      cases hl
+      have hS := parseAll_mem _ ss h1
+      have hD := parseAll_mem _ ds h2
+      have hdisc : ∀ ext, ∀ f ∈ discover t excl suffix ext,
+          f ∈ t ∧ checkName (f.1.getLastD []) suffix ext = true := by
+        intro ext f hf
+        simp only [discover, List.mem_filter, Bool.and_eq_true] at hf
+        exact ⟨hf.1, hf.2.2⟩
+      intro o ho
+      refine ⟨?_, ?_⟩
+      · intro s hs
+        obtain ⟨f, hf, hp, _⟩ := hS s hs
+        rw [hp]; exact ht.1 f (hdisc _ f hf).1
+      · intro s hs hpre
+        obtain ⟨f, hf, hp, hc, hob, hn⟩ := hS s hs
+        obtain ⟨hft, hfc⟩ := hdisc _ f hf
+        rcases List.mem_append.mp ho with ho | ho
+        · obtain ⟨f', hf', hp', hc', hob', hn'⟩ := hS o ho
+          have : f = f' := ht.2 f hft f' (hdisc _ f' hf').1 (by rw [← hp, ← hp']; exact hpre)
+          subst this
+          rw [hn] at hn'
+          cases s; cases o
+          simp only [Except.ok.injEq, Prod.mk.injEq] at hn'
+          simp_all
+        · obtain ⟨f', hf', hp', _, _, _⟩ := hD o ho
+          obtain ⟨f0, hf0, rfl⟩ := List.mem_map.mp hf'
+          obtain ⟨hf0t, hf0c⟩ := hdisc _ f0 hf0
+          have : f = f0 := ht.2 f hft f0 hf0t (by rw [← hp]; simpa [hp'] using hpre)
+          subst this
+          exfalso
+          have e1 := checkName_endsWith _ _ _ hfc
+          have e2 := checkName_endsWith _ _ _ hf0c
+          rw [lower_jsonExt] at e1; rw [lower_tsvExt] at e2
+          exact not_json_and_tsv _ e1 e2
+
+/-! ## discovery: the walk with pruning is a filter of the full listing (`discover_spec`) -/
+
+/-- no excluded name among the directory components after the first `n` -/
+def visFrom (n : Nat) (excl : List Str) (p : Path) : Bool := ((p.drop n).dropLast).all fun c => !excl.contains c
+
+theorem visFrom_zero (excl : List Str) (p : Path) : visFrom 0 excl p = visible excl p := by
+  simp [visFrom, visible]
+
+theorem visFrom_single (here : Path) (a : Str) (excl : List Str) :
+    visFrom here.length excl (here ++ [a]) = true := by
+  simp [visFrom]
+
+theorem visFrom_cons (here : Path) (n : Str) (rest : Path) (excl : List Str) (hr : rest ≠ []) :
+    visFrom here.length excl (here ++ n :: rest) =
+      (!excl.contains n && visFrom (here ++ [n]).length excl ((here ++ [n]) ++ rest)) := by
+  cases rest with
+  | nil => exact absurd rfl hr
+  | cons a as => simp [visFrom, List.dropLast]
+
+mutual
+theorem Dir.files_prefix (excl : List Str) (keep : Str → Bool) :
+    (D : Dir α) → ∀ here, ∀ f ∈ D.files excl keep here, ∃ rest, rest ≠ [] ∧ f.1 = here ++ rest
+  | .mk fs subs => by
+    intro here f hf
+    simp only [Dir.files, List.mem_append, List.mem_map, List.mem_filter] at hf
+    rcases hf with ⟨x, _, rfl⟩ | hf
+    · exact ⟨[x.1], by simp, rfl⟩
+    · exact DirList.files_prefix excl keep subs here f hf
+theorem DirList.files_prefix (excl : List Str) (keep : Str → Bool) :
+    (L : DirList α) → ∀ here, ∀ f ∈ L.files excl keep here, ∃ rest, rest ≠ [] ∧ f.1 = here ++ rest
+  | .nil => by intro here f hf; simp [DirList.files] at hf
+  | .cons n d rest => by
+    intro here f hf
+    simp only [DirList.files, List.mem_append] at hf
+    rcases hf with hf | hf
+    · split at hf
+      · cases hf
+      · obtain ⟨r, _, he⟩ := Dir.files_prefix excl keep d (here ++ [n]) f hf
+        exact ⟨n :: r, by simp, by rw [he]; simp⟩
+    · exact DirList.files_prefix excl keep rest here f hf
+end
+
+theorem getLastD_concat' (l : Path) (a : Str) : (l ++ [a]).getLastD [] = a := by simp
+
+mutual
+theorem Dir.files_eq_filter (excl : List Str) (keep : Str → Bool) :
+    (D : Dir α) → ∀ here, D.files excl keep here =
+      (D.files [] (fun _ => true) here).filter
+        (fun f => visFrom here.length excl f.1 && keep (f.1.getLastD []))
+  | .mk fs subs => by
+    intro here
+    simp only [Dir.files, List.filter_append, List.filter_map]
+    rw [← DirList.files_eq_filter excl keep subs here]
+    congr 1
+    congr 1
+    rw [List.filter_filter]
+    apply List.filter_congr
+    intro x _
+    simp [Function.comp, visFrom_single]
+theorem DirList.files_eq_filter (excl : List Str) (keep : Str → Bool) :
+    (L : DirList α) → ∀ here, L.files excl keep here =
+      (L.files [] (fun _ => true) here).filter
+        (fun f => visFrom here.length excl f.1 && keep (f.1.getLastD []))
+  | .nil => by intro here; simp [DirList.files]
+  | .cons n d rest => by
+    intro here
+    simp only [DirList.files, List.filter_append, List.contains_nil, Bool.false_eq_true, if_false]
+    rw [← DirList.files_eq_filter excl keep rest here]
+    congr 1
+    have hpre := Dir.files_prefix ([] : List Str) (fun _ => true) d (here ++ [n])
+    by_cases hc : excl.contains n = true
+    · simp only [hc, if_true]
+      symm
+      rw [List.filter_eq_nil_iff]
+      intro f hf
+      obtain ⟨r, hr, he⟩ := hpre f hf
+      have hm : n ∈ excl := by simpa using hc
+      rw [he, List.append_assoc, List.singleton_append, visFrom_cons here n r excl hr]
+      simp [hm]
+    · simp only [hc, if_false]
+      rw [Dir.files_eq_filter excl keep d (here ++ [n])]
+      apply List.filter_congr
+      intro f hf
+      obtain ⟨r, hr, he⟩ := hpre f hf
+      have hm : ¬ n ∈ excl := by simpa using hc
+      rw [he]
+      conv => rhs; rw [List.append_assoc, List.singleton_append, visFrom_cons here n r excl hr]
+      simp [hm]
+end
+
+/-- **discover_spec.**  `get_file_list` (walk with pruning of excluded directory names, filter on
+prefix / suffix / extensions) returns exactly the files of the full listing whose path has no excluded
+directory-name component and whose name passes `check_filename`, in listing order. -/
+theorem discover_spec (D : Dir α) (f : NameFilter) (excl : List Str) :
+    getFileList D f excl =
+      D.listing.filter (fun e => visible excl e.1 && checkFilename f (e.1.getLastD [])) := by
+  unfold getFileList Dir.listing
+  rw [Dir.files_eq_filter excl (checkFilename f) D []]
+  apply List.filter_congr
+  intro e _
+  rw [List.length_nil, visFrom_zero]
+
+/-- membership form: independent of the order in which directories and files are traversed -/
+theorem discover_mem (D : Dir α) (f : NameFilter) (excl : List Str) (e : Path × Option (Columns α)) :
+    e ∈ getFileList D f excl ↔
+      e ∈ D.listing ∧ (∀ c ∈ e.1.dropLast, c ∉ excl) ∧ checkFilename f (e.1.getLastD []) = true := by
+  rw [discover_spec, List.mem_filter, Bool.and_eq_true]
+  have : visible excl e.1 = true ↔ ∀ c ∈ e.1.dropLast, c ∉ excl := by
+    simp [visible]
+  rw [this]
+
+/-- two directory trees with the same files (listings equal up to order, e.g. another `scandir`
+order) give the same discovered files up to order -/
+theorem discover_order_independent (D D' : Dir α) (f : NameFilter) (excl : List Str)
+    (h : D.listing.Perm D'.listing) : (getFileList D f excl).Perm (getFileList D' f excl) := by
+  rw [discover_spec, discover_spec]; exact h.filter _
+
+/-- the flat `discover` that `load` uses is `get_file_list(root, name_suffix=suffix, extensions=[ext])` -/
+theorem discover_eq_getFileList (D : Dir α) (excl : List Str) (suffix ext : Str) :
+    discover D.listing excl suffix ext = getFileList D ⟨[], [suffix], [ext]⟩ excl := by
+  rw [discover_spec]; rfl
+
+/-! ## dataset validation through the C08 / C07 models, command line -/
+
+/-- `SidecarV.validate` of an object document is `validateLoaded` without load issues -/
+theorem validate_obj (g : SidecarV.Guards) (O : SidecarV.Oracle) (kvs : List (Str × SJson)) :
+    SidecarV.validate g O (.obj kvs) = validateLoaded g O [] kvs := rfl
+
+theorem tagE_congr {β γ ε ε' : Type} (f : β → γ) (h : ε → ε') (a b : Except ε (List β)) (hab : a = b) :
+    tagE f h a = tagE f h b := by rw [hab]
+
+theorem map_congr' {β γ : Type _} (l : List β) (f g : β → γ) (h : ∀ a ∈ l, f a = g a) : l.map f = l.map g :=
+  List.map_congr_left h
+
+/-- **dataset_validate_eq.**  For a group in which `Files` holds for every object (every file-system
+listing, `load_files`) and every chain member is a JSON object, the issues of one file group are the
+concatenation, sidecars first, of `SidecarV.validate` (C08 model) on each sidecar's merged document
+and of `Tabular.validate` (C07 model) on each data file assembled with its merged sidecar, where the
+merge is the merge of the chosen chain; the first call that raises ends the run. -/
+theorem dataset_validate_eq (W : Oracles) (g : Group SJson)
+    (hF : ∀ o ∈ g.sidecars ++ g.datafiles, Files g o)
+    (hobj : ∀ s ∈ g.sidecars, s.obj = true) :
+    groupValidate W g =
+      seqE ((g.sidecars.map fun s =>
+              tagE (DIssue.sidecar s.path) (DExn.sidecar s.path)
+                (SidecarV.validate .fixed (W.sidecar (mergeCols ((chosenChain g s).map (·.cols))))
+                  (.obj (mergeCols ((chosenChain g s).map (·.cols)))))) ++
+            (g.datafiles.map fun d =>
+              let sc := if (chosenChain g d).isEmpty then none else some (mergeCols ((chosenChain g d).map (·.cols)))
+              tagE (DIssue.table d.path) (DExn.table d.path) (Tabular.validate (W.table d sc).1 (W.table d sc).2))) := by
+  unfold groupValidate
+  congr 2
+  · apply map_congr'
+    intro s hs
+    have hf := hF s (List.mem_append_left _ hs)
+    have hz : loadIssueCount g s = 0 := by
+      unfold loadIssueCount
+      rw [List.length_eq_zero_iff, List.filter_eq_nil_iff]
+      intro t ht
+      have : t ∈ g.sidecars := by
+        unfold chain at ht
+        obtain ⟨d, _, hd⟩ := List.mem_filterMap.mp ht
+        unfold chainAt at hd
+        exact (mem_dirSidecars (List.mem_of_find?_eq_some hd)).1
+      simp [hobj t this]
+    unfold sidecarIssues
+    rw [hz, merge_chosen g s hf, validate_obj]
+    rfl
+  · apply map_congr'
+    intro d hd
+    have hf := hF d (List.mem_append_right _ hd)
+    unfold tableIssues hasSidecar
+    rw [merge_chosen g d hf, chain_eq_chosenChain g d hf]
+    cases (chosenChain g d).isEmpty <;> rfl
+
+/-- with BIDS' uniqueness the merges in `dataset_validate_eq` are the property's merges -/
+theorem mergeChosen_eq_mergeSpec (g : Group α) (o : PFile α)
+    (hu : ∀ d ∈ inits o.dir, (g.sidecars.filter (fun s => s.dir == d && specApplies s o)).length ≤ 1) :
+    mergeCols ((chosenChain g o).map (·.cols)) = mergeSpec g o := by
+  rw [chosenChain_eq_specChain g o hu]; rfl
+
+/-- a non-object chain member contributes no column -/
+theorem update_nil (m : Columns α) : update m [] = m := rfl
+
+/-- the CLI's options are exactly these; it passes no keyword to `BidsDataset` (no option for excluded
+directories, suffixes or schema: the defaults of `BidsDataset.__init__` apply).  Regenerated from the
+source on every run: a new option breaks this theorem. -/
+theorem cli_options :
+    Generated.C16.cliOptions.map (·.length) = [1, 2, 2, 1] ∧ Generated.C16.cliDatasetKeywords = [] ∧ Generated.C16.cliFormats.length = 3 ∧
+    Generated.C16.datasetTabularTypes.length = 1 := by decide
+
+/-- **cli_spec.**  For every format, output destination and `--check-for-warnings` setting: if the
+validator returns, its exit status is 1 iff the (filtered) issue list of
+`BidsDataset(path).validate(check_for_warnings=flag)` is non-empty and 0 otherwise; the status does not
+depend on `--format` / `--output-file`; the report goes to the `-o` file iff one is given. -/
+theorem cli_spec (W : Oracles) (t : Tree SJson) (a : CliArgs) (r : CliResult) (h : cliMain W t a = .ok r) :
+    datasetValidate W t Generated.C16.datasetExcludeDirs Generated.C16.datasetTabularTypes a.checkForWarnings = .ok r.issues ∧
+    (r.exit = 1 ↔ r.issues ≠ []) ∧ (r.exit = 0 ↔ r.issues = []) ∧
+    (r.dest = .stdout ↔ (a.outputFile = none ∨ a.outputFile = some [])) := by
+  unfold cliMain at h
+  cases hd : datasetValidate W t Generated.C16.datasetExcludeDirs Generated.C16.datasetTabularTypes a.checkForWarnings with
+  | error e => rw [hd] at h; cases h
+  | ok l =>
+    rw [hd] at h
+    cases h
+    refine ⟨rfl, exit_iff l, exit_zero_iff l, ?_⟩
+    cases ho : a.outputFile with
+    | none => simp
+    | some f => cases f <;> simp
+
+theorem cli_exit_independent (W : Oracles) (t : Tree SJson) (a a' : CliArgs)
+    (h : a.checkForWarnings = a'.checkForWarnings) :
+    (cliMain W t a).toOption.map (·.exit) = (cliMain W t a').toOption.map (·.exit) := by
+  unfold cliMain
+  rw [h]
+  generalize datasetValidate W t Generated.C16.datasetExcludeDirs Generated.C16.datasetTabularTypes
+    a'.checkForWarnings = r
+  cases r <;> rfl
+
+/-- the CLI raises exactly when building or validating the dataset raises -/
+theorem cli_raises_iff (W : Oracles) (t : Tree SJson) (a : CliArgs) (e : RunExn) :
+    cliMain W t a = .error e ↔
+      datasetValidate W t Generated.C16.datasetExcludeDirs Generated.C16.datasetTabularTypes a.checkForWarnings = .error e := by
+  unfold cliMain
+  generalize datasetValidate W t Generated.C16.datasetExcludeDirs Generated.C16.datasetTabularTypes
+    a.checkForWarnings = r
+  cases r <;> simp
+
+/-- without `--check-for-warnings` only errors are reported -/
+theorem filterSev_false (l : List DIssue) : ∀ i ∈ filterSev false l, i.isError = true := by
+  intro i hi; simp only [filterSev, Bool.false_eq_true, if_false, List.mem_filter] at hi; exact hi.2
+
 /-! ## the unchanged code is refuted; non-vacuity -/
 
 section Example
@@ -509,9 +906,9 @@ private def events : Str := ['e','v','e','n','t','s']
 /-- root `task-A_events.json` {A:1, B:2}; `sub-01/sub-01_events.json` {B:3};
     data file `sub-01/sub-01_task-A_events.tsv` -/
 def exTree : Tree Nat :=
-  [ ([taskA ++ evJson], [(colA, 1), (colB, 2)]),
-    ([sub01, sub01 ++ evJson], [(colB, 3)]),
-    ([sub01, sub01 ++ '_' :: taskA ++ ['_','e','v','e','n','t','s','.','t','s','v']], []) ]
+  [ ([taskA ++ evJson], some [(colA, 1), (colB, 2)]),
+    ([sub01, sub01 ++ evJson], some [(colB, 3)]),
+    ([sub01, sub01 ++ '_' :: taskA ++ ['_','e','v','e','n','t','s','.','t','s','v']], none) ]
 
 /-- what each algorithm gives the data file of `exTree`: (unchanged code, property, fixed code) -/
 def exMerges : Option (List (List (Columns Nat))) :=
@@ -533,10 +930,10 @@ theorem exTree_unique :
 
 /-- the parsed group of `exTree`, written out (checked against `load` below) -/
 def exGroup : Group Nat :=
-  ⟨[⟨[taskA ++ evJson], some events, [(['t','a','s','k'], ['A'])], [(colA, 1), (colB, 2)]⟩,
-    ⟨[sub01, sub01 ++ evJson], some events, [(['s','u','b'], ['0','1'])], [(colB, 3)]⟩],
+  ⟨[⟨[taskA ++ evJson], some events, [(['t','a','s','k'], ['A'])], [(colA, 1), (colB, 2)], true⟩,
+    ⟨[sub01, sub01 ++ evJson], some events, [(['s','u','b'], ['0','1'])], [(colB, 3)], true⟩],
    [⟨[sub01, sub01 ++ '_' :: taskA ++ ['_','e','v','e','n','t','s','.','t','s','v']], some events,
-     [(['s','u','b'], ['0','1']), (['t','a','s','k'], ['A'])], []⟩]⟩
+     [(['s','u','b'], ['0','1']), (['t','a','s','k'], ['A'])], [], true⟩]⟩
 
 theorem exGroup_is_load :
     (load exTree [] events).toOption.map (fun g => (g.sidecars, g.datafiles)) =
@@ -547,6 +944,28 @@ counter-example tree, so `merge_spec` applies to it while the unchanged algorith
 theorem exGroup_wellFormed : ∀ o ∈ exGroup.datafiles ++ exGroup.sidecars, WellFormed exGroup o := by
   intro o ho
   refine ⟨?_, ?_, ?_⟩ <;> revert o <;> decide
+
+/-- the example tree is a file-system listing, so `load_files` applies to it -/
+theorem exTree_isListing : IsListing exTree := by unfold IsListing; decide
+
+private def eventsJson : Str := ['e','v','e','n','t','s','.','j','s','o','n']
+private def dataA : Path := [sub01, sub01 ++ '_' :: taskA ++ ['_','e','v','e','n','t','s','.','t','s','v']]
+
+/-- two applicable sidecars in the root directory, in the two possible listing orders -/
+def exTwo (swap : Bool) : Tree Nat :=
+  (if swap then [([taskA ++ evJson], some [(colA, 2)]), ([eventsJson], some [(colA, 1)])]
+   else [([eventsJson], some [(colA, 1)]), ([taskA ++ evJson], some [(colA, 2)])]) ++ [(dataA, none)]
+
+/-- **first listed wins, concretely.**  With `events.json` {A:1} and `task-A_events.json` {A:2} both in
+the root, the data file gets the columns of whichever is listed first (code: [chain length, A]);
+the property's merge of *all* applicable files would give the other value. -/
+theorem first_listed_example :
+    ((load (exTwo false) [] events).toOption.map fun g =>
+        g.datafiles.map fun d => ((chain g d).length, getCol colA (mergeImpl g d), getCol colA (mergeSpec g d))) =
+      some [(1, some 1, some 2)] ∧
+    ((load (exTwo true) [] events).toOption.map fun g =>
+        g.datafiles.map fun d => ((chain g d).length, getCol colA (mergeImpl g d), getCol colA (mergeSpec g d))) =
+      some [(1, some 2, some 1)] := by decide
 
 /-- file-name parsing on examples: entities, missing suffix, the three error codes -/
 example : (parseName (sub01 ++ '_' :: taskA ++ evJson)).toOption =
